@@ -87,8 +87,8 @@ def parse_headers(repo):
                 if ch == ";":
                     stmts.append(stmt)
                     stmt = ""
-                elif ch == ":" and stmt.strip() in ("public", "private", "protected"):
-                    stmts.append(stmt.strip() + ":")
+                elif ch == ":" and re.search(r"(^|[\s;}])(public|private|protected)\s*$", stmt):
+                    stmts.append(re.search(r"(public|private|protected)\s*$", stmt).group(1) + ":")
                     stmt = ""
                 else:
                     stmt += ch
